@@ -19,7 +19,7 @@ try:
     alt = os.path.join(os.path.dirname(patch), "patch.current.diff")
     if os.path.basename(patch) == "patch.diff" and os.path.exists(alt):
         # the seeded change as ported to the current (since repaired) tree: same mutation, new context
-        subprocess.run(["git", "-C", wt, "checkout", "-q", "."], capture_output=True)
+        subprocess.run(["git", "-C", wt, "reset", "-q", "--hard", "HEAD"], capture_output=True)   # also clears a conflicted 3-way attempt
         r = subprocess.run(["git", "-C", wt, "apply", "--whitespace=nowarn", alt], capture_output=True)
         print("(using patch.current.diff)")
     if r.returncode != 0:
